@@ -7,14 +7,20 @@ wt=$1; id=$2; m=$wt/mutation
 cd $wt || exit 2
 git diff -- lib > $m/current.diff
 if ! diff -q <(grep '^[+-][^+-]' $m/current.diff) <(grep '^[+-][^+-]' $m/patch.diff) >/dev/null; then echo "$id: worktree diff differs from patch.diff"; fi
-extra=""; [ "$id" = C09 ] && extra="-O0 -pthread"
+extra="${DEMO_FLAGS:-}"; [ "$id" = C09 ] && extra="-O0 -pthread"
+# DEMO_LINK: a (default, static libcrypt.a) | so (link the shared library, rpath) | dl (dlopen: only -ldl)
+case "${DEMO_LINK:-a}" in
+  a) lib="$wt/.libs/libcrypt.a" ;;
+  so) lib="-L$wt/.libs -lcrypt -Wl,-rpath,$wt/.libs" ;;
+  dl) lib="-ldl" ;;
+esac
 make -j4 >/dev/null 2>&1; b=$?
 make -j4 check > $m/check.log 2>&1
 pass=$(grep -m1 '^# PASS:' $m/check.log | awk '{print $3}'); fail=$(grep -m1 '^# FAIL:' $m/check.log | awk '{print $3}'); err=$(grep -m1 '^# ERROR:' $m/check.log | awk '{print $3}')
-gcc $extra -I $wt $m/demo.c $wt/.libs/libcrypt.a -o $m/demo_with 2>/dev/null; $m/demo_with > $m/demo_with.out 2>&1; dw=$?
+gcc $extra -I $wt $m/demo.c $lib -o $m/demo_with 2>$m/demo_build.log; $m/demo_with > $m/demo_with.out 2>&1; dw=$?
 git apply -R $m/patch.diff || { echo "$id: cannot reverse"; exit 2; }
 make -j4 >/dev/null 2>&1
-gcc $extra -I $wt $m/demo.c $wt/.libs/libcrypt.a -o $m/demo_without 2>/dev/null; $m/demo_without > $m/demo_without.out 2>&1; dwo=$?
+gcc $extra -I $wt $m/demo.c $lib -o $m/demo_without 2>>$m/demo_build.log; $m/demo_without > $m/demo_without.out 2>&1; dwo=$?
 git apply $m/patch.diff
 rm -f $m/demo_with $m/demo_without
 echo "{\"id\":\"$id\",\"build\":$b,\"suite_pass\":${pass:-0},\"suite_fail\":${fail:-0},\"suite_error\":${err:-0},\"demo_exit_with_change\":$dw,\"demo_exit_without_change\":$dwo}" | tee $m/confirm.json
